@@ -187,7 +187,9 @@ func refVariance(c, p []int, maxInd float64) (score float64, inf bool, borderlin
 			d = -d
 		}
 		diff := float64(d) - limit
-		if exact && diff == 0 {
+		if math.IsInf(limit, 1) {
+			// no individual limit at all
+		} else if exact && diff == 0 {
 			// tie, exactly representable: within the allowed variance
 		} else if math.Abs(diff) <= 1e-9*math.Max(1, limit) {
 			borderline = true
@@ -260,7 +262,7 @@ func c20SelfTest() error {
 	return nil
 }
 
-var c20Limits = []float64{0.2, 0.45, 0.5, 0.7, 0.8, 0.25, 0, 1.0, 1.5, 2.0, 3.25}
+var c20Limits = []float64{0.2, 0.45, 0.5, 0.7, 0.8, 0.25, 0, 1.0, 1.5, 2.0, 3.25, 10, 1e300, math.MaxFloat64, math.Inf(1)}
 
 // typical patterns of the symbologies (module widths), typed from the standards
 var c20Patterns = map[int][][]int{
@@ -311,7 +313,7 @@ func c20CheckOne(r *fw.Rec, c, p []int, lim float64) bool {
 }
 
 func c20(c *fw.Ctx) {
-	c.Rule("RecordPattern/RecordPatternInReverse: seeded random rows of every length 0..300 (all-white, all-black, pixel noise, run structures with max run 2/4/9/40), every start offset, counter lengths 1..10, compared with a run-length model on []bool; PatternMatchVariance: all counter vectors with entries 0..6 for lengths 3..6 (exhaustive) x typical symbology patterns x 11 variance limits (0, 0.2 .. 0.8 as the readers use, and 1.0 .. 3.25 where an empty run can still be within the limit), random vectors with entries up to 40, scale factors 2..9, compared with the contract evaluated exactly (integer arithmetic, cross-checked against big.Rat in the self-test); distinct = distinct rows + distinct (counters, pattern, limit)")
+	c.Rule("RecordPattern/RecordPatternInReverse: seeded random rows of every length 0..300 (all-white, all-black, pixel noise, run structures with max run 2/4/9/40), every start offset, counter lengths 1..10, compared with a run-length model on []bool; PatternMatchVariance: all counter vectors with entries 0..6 for lengths 3..6 (exhaustive) x typical symbology patterns x 15 variance limits (0, 0.2 .. 0.8 as the readers use, 1.0 .. 10 where an empty run can still be within the limit, and 1e300 / MaxFloat64 / +Inf = no individual limit), random vectors with entries up to 40, scale factors 2..9, compared with the contract evaluated exactly (integer arithmetic, cross-checked against big.Rat in the self-test); distinct = distinct rows + distinct (counters, pattern, limit)")
 	c.Assume("DESIGN C20 don't-care regions: reverse recording when the runs begin exactly at index 0; comparisons within 1e-9 relative of the individual-variance limit (except exact ties with an integer unit width and a dyadic limit, where the float computation is exact and the tie counts as within the limit)")
 	rowsPer := c.Pick(10, 100)
 	for n := 0; n <= 300; n++ {
@@ -357,7 +359,7 @@ func c20(c *fw.Ctx) {
 					}
 					rec(1)
 					if first == 2 && pi == 0 && length == 4 {
-						r.Sample(map[string]interface{}{"kind": "exhaustive counters", "length": length, "pattern": p, "first_entry": first, "limits": c20Limits})
+						r.Sample(map[string]interface{}{"kind": "exhaustive counters", "length": length, "pattern": p, "first_entry": first, "limits": fmt.Sprint(c20Limits)})
 					}
 				})
 			}
